@@ -250,6 +250,69 @@ def rule_o4(ctx):
         r.ob(None, "%s: %d frees use it, %d writers" % (comp, len(info["sites"]), len(writers)))
 
 
+
+def rule_o7(ctx):
+    """lock discipline of protocol state (deviant-site rule): a field of a protocol's sock/pipe/ctx record that is written
+    under a mutex at one site is written under a mutex at every site outside init/fini"""
+    from ..locks import lockinfo
+    r = ctx.rule("C03.O7", "T9", "lock discipline of protocol state: a field of a protocol sock / pipe / ctx record that some site "
+                 "writes with a mutex held is written with a mutex held at every site (outside the init/fini slots, and "
+                 "counting the lock the callers of a lock-free helper hold): a store moved past the unlock publishes the "
+                 "object before it is complete", floor=100)
+    prog = ctx.prog
+    initfini = set()
+    for slot in ("nni_proto_pipe_ops.pipe_init", "nni_proto_pipe_ops.pipe_fini", "nni_proto_sock_ops.sock_init",
+                 "nni_proto_sock_ops.sock_fini", "nni_proto_ctx_ops.ctx_init", "nni_proto_ctx_ops.ctx_fini"):
+        for f in prog.slot_fns(slot):
+            initfini.add(f.name)
+    callers = prog.callers()
+    infos = {}
+
+    def info_of(f):
+        if f not in infos:
+            infos[f] = lockinfo(f)
+        return infos[f]
+
+    def held_at(f, pos, depth=0):
+        """True if a mutex is held at pos on every path, taking the callers of a lock-free helper into account"""
+        held = info_of(f).visits.get(pos, [])
+        if held and all(len(h) > 0 for h in held):
+            return True
+        if depth >= 2 or info_of(f).acquires:
+            return False
+        cs = [(c, cs_) for (c, cs_) in callers.get(f.name, []) if c.file == f.file and not c.cfg_failed]
+        return bool(cs) and all(held_at(c, (cs_.b, cs_.i), depth + 1) for c, cs_ in cs)
+    W = defaultdict(list)
+    for f in prog.functions:
+        if "/sp/protocol/" not in f.file or f.cfg_failed:
+            continue
+        for s in f.sites():
+            n = s.node
+            tgt = None
+            if n.get("k") == "asg" and n["lhs"].get("k") == "mem":
+                tgt = n["lhs"]
+            elif n.get("k") == "un" and n.get("op") in ("++", "--") and n["e"].get("k") == "mem":
+                tgt = n["e"]
+            if tgt is None:
+                continue
+            lf = last_field(tgt)
+            if lf:
+                W[lf].append((f, s))
+    for lf, ws in sorted(W.items()):
+        flags = [(f, s, held_at(f, (s.b, s.i))) for f, s in ws if f.name not in initfini]
+        if not any(h for _, _, h in flags):
+            continue
+        for f, s, h in flags:
+            if h:
+                r.ob(f, "%s written under a mutex (line %s)" % (lf, s.line))
+            else:
+                ctx.fail(r, f, "%s written without the lock" % lf, s.line,
+                         "%s is written at line %s with no mutex held, while %d other site(s) write it under the socket lock: "
+                         "another thread can observe the object between the unlock and this store"
+                         % (lf, s.line, sum(1 for _, _, x in flags if x)))
+
+
 def run(ctx):
     ctx.guard(rule_o1)
     ctx.guard(rule_o4)
+    ctx.guard(rule_o7)
